@@ -702,7 +702,9 @@ func c19Printer(c *Ctx, p *Prog) {
 			}
 			// atoms
 			var resEmpty, differs *bool
-			for k, v := range o.Assign {
+			for _, k := range o.AtomKeys() {
+				v := o.Assign[k]
+				_ = v
 				s := o.AtomSyms[k]
 				vv := v
 				if s.Op == "binop" && s.Tok == token.EQL && s.Args[1].isConst() {
